@@ -32,9 +32,9 @@ func TestMain(m *testing.M) {
 			"checked after every step against a reference list of JSON documents (full listing, id lookup, generated DNF queries with ORDER BY/limit/offset, counts, audit trail) " +
 			"and indexed-vs-twin; proof histories through pkg/database + verification.VerifyDocument with altered documents/proofs. " +
 			"Non-trivial: the history contains a query that returned a non-empty strict subset of the live documents, or a schema change after data was written " +
-			"(proof cases: at least one document with >=2 revisions verified and one alteration rejected); distinct by hash of the case descriptor (schema+ops+queries).",
+			"(proof cases: at least one document with >=2 revisions verified and one alteration rejected; lag cases: one unique index among 1-3 plain ones in generated declaration order, a write re-using a unique value issued right behind a 30-80 document batch); distinct by hash of the case descriptor (schema+ops+queries).",
 		Assumptions: []string{
-			"one client; the harness waits for the indexer to catch up before every write (inserts run with unsafe MVCC on a possibly stale snapshot; the race itself is pinned by probe K19g)",
+			"one client; writes are issued without waiting for the indexer (TestUniqueUnderLag provokes the lag with 30-80 document batches); nothing about time is asserted. Only GetEncodedDocument/AuditDocument sweeps and proofs wait for the indexer first (those calls read the index as it is)",
 			"null / missing operands: membership, ordering position and uniqueness of nulls are NOT asserted against the reference, only indexed-vs-twin (property does not pin them)",
 			"ordering of BOOLEAN and UUID values and of document ids is not pinned: only EQ/NE are asserted for them, order only differentially",
 			"field paths have at most 3 levels (document.DefaultDocumentMaxNestedFields); a literal key containing '.' is never also a declared path",
@@ -225,6 +225,15 @@ func (h *harness) dump() any {
 func (h *harness) waitIndexed() {
 	if err := h.st.WaitForIndexingUpto(bg, h.st.LastPrecommittedTxID()); err != nil {
 		h.failf("WaitForIndexingUpto: %v", err)
+	}
+}
+
+// beforeWrite: writes are issued without waiting for the indexer (the outcome of a write must not depend on it);
+// only while the known finding K19g (unique-insert race) is present the harness lets the indexer catch up first.
+func (h *harness) beforeWrite() {
+	if excl(kUniqRace) {
+		vk.CountExcluded(kUniqRace)
+		h.waitIndexed()
 	}
 }
 
@@ -993,7 +1002,7 @@ func (h *harness) opInsert() {
 		}
 		conflict, unpinned = cl || cb, unp
 	}
-	h.waitIndexed()
+	h.beforeWrite()
 	in := make([]*structpb.Struct, n)
 	for i := range docs {
 		in[i] = cloneStruct(docs[i])
@@ -1028,7 +1037,7 @@ func (h *harness) opInsert() {
 	if len(ids) != n || txID == 0 {
 		h.failf("insert returned tx %d and %d ids for %d documents", txID, len(ids), n)
 	}
-	h.waitIndexed()
+	h.beforeWrite()
 	in2 := make([]*structpb.Struct, n)
 	for i := range docs {
 		in2[i] = cloneStruct(docs[i])
@@ -1224,7 +1233,7 @@ func (h *harness) opReplace() {
 		h.c.Label("replace-limit-ambiguous")
 		var picked [2][]*rdoc
 		for twin := 0; twin < 2; twin++ {
-			h.waitIndexed()
+			h.beforeWrite()
 			revs, err := h.e.ReplaceDocuments(bg, user, h.toProto(q, twin), cloneStruct(doc))
 			if err != nil {
 				h.failf("%s: replace %s: %v", colls[twin], q, err)
@@ -1257,7 +1266,7 @@ func (h *harness) opReplace() {
 		if byID >= 0 {
 			in.Fields[m.idField] = structpb.NewStringValue(m.docs[byID].id[twin])
 		}
-		h.waitIndexed()
+		h.beforeWrite()
 		revs, err := h.e.ReplaceDocuments(bg, user, h.toProto(q, twin), in)
 		if len(targets) == 0 {
 			if err != nil || len(revs) != 0 {
@@ -1371,7 +1380,7 @@ func (h *harness) opDelete() {
 	user := rapid.SampledFrom([]string{"alice", "dave"}).Draw(rt, "user")
 	h.c.Descf("D%s", q)
 	for twin := 0; twin < 2; twin++ {
-		h.waitIndexed()
+		h.beforeWrite()
 		if err := h.e.DeleteDocuments(bg, user, h.toProto(q, twin)); err != nil {
 			h.failf("%s: delete %s: %v", colls[twin], q, err)
 		}
@@ -1415,7 +1424,7 @@ func (h *harness) opSchema() {
 	m := h.m
 	hadData := len(m.docs) > 0
 	kind := rapid.SampledFrom([]string{"addField", "addField", "removeField", "createIndex", "createIndex", "deleteIndex"}).Draw(rt, "schemaOp")
-	h.waitIndexed()
+	h.beforeWrite()
 	switch kind {
 	case "addField":
 		var cands []fieldDef
